@@ -1,9 +1,59 @@
+import Drx.Bitd
+import Drx.BitdSpec
 import Drx.Drv.Util
 namespace Drx.Drv.Bitd
-open Drx Drx.Drv
+open Drx Drx.Drv Drx.Bitd
 
-/-- commands of the `bitd` family (stub: nothing implemented yet) -/
+/-- a call as one token: `depth,W,H,padW,padH,palette,clut,data` (palette `-` = empty string; hex, `-` = empty) -/
+def parseCall (s : String) : Option Call :=
+  match s.splitOn "," with
+  | [d, w, h, pw, ph, pal, clut, data] => do
+    let d ← parseNat d; let w ← parseNat w; let h ← parseNat h; let pw ← parseNat pw; let ph ← parseInt ph
+    let clut ← bytesOfHex clut; let data ← bytesOfHex data
+    some { depth := d, width := w, height := h, padW := pw, padH := ph, palette := if pal = "-" then "" else pal, clut := clut, fdata := data }
+  | _ => none
+
+def keys : List Nat := Gen.BitdTables.decoders.map (·.1)
+
+def stateJ (s : DecState) : J := J.obj (keys.map fun k => (toString k, J.hex (s k)))
+
+def runSeq (reset : Bool) : DecState → List Call → List J → DecState × List J
+  | s, [], acc => (s, acc.reverse)
+  | s, c :: cs, acc =>
+    let (s', r) := decodeStep reset s c
+    runSeq reset s' cs (J.ofR J.hex r :: acc)
+
+/-- spec-level command: the Lean encoder applied to the spec object, the model, the Lean BMP reader -/
+def c06 (depth W H ox oy : Nat) (pad : Nat) (pix : Bytes) (enc : String) (expectHex : Bytes) : Option String := do
+  let img ← Spec.mkImg depth W H ox oy pix
+  let e ← Spec.parseEnc enc
+  let data := Spec.serialise img (UInt8.ofNat pad) (UInt8.ofNat pad) e
+  let valid := Spec.validEnc img (UInt8.ofNat pad) (UInt8.ofNat pad) e
+  let r := bitd2bmp (Spec.callOf img data)
+  let readOk := match r with
+    | .ok bmp => Spec.readBmp bmp == some (Spec.canvas img)
+    | .error _ => false
+  some (J.obj [("enc_ok", J.bool (data == expectHex)), ("valid", J.bool valid), ("read_ok", J.bool readOk),
+               ("supported", J.bool (Spec.supportedB img e)), ("bmp", J.ofR J.hex r)]).render
+
+/-- commands of the `bitd` family (see harness/c06.py, harness/c13.py) -/
 def run : List String → Option String
+  | ["decode", c] => do
+    let c ← parseCall c
+    some (rJ J.hex (bitd2bmp c))
+  | "seq" :: reset :: calls => do
+    let cs ← calls.mapM parseCall
+    let (s, rs) := runSeq (reset = "1") DecState.init cs []
+    some (J.obj [("results", J.arr rs), ("state", stateJ s)]).render
+  | ["readbmp", h] => do
+    let b ← bytesOfHex h
+    some (match Spec.readBmp b with
+      | some rows => (J.arr (rows.map fun r => J.arr (r.map J.hex))).render
+      | none => "\"error\"")
+  | ["c06", depth, w, h, ox, oy, pad, pix, enc, expect] => do
+    let depth ← parseNat depth; let w ← parseNat w; let h ← parseNat h; let ox ← parseNat ox; let oy ← parseNat oy
+    let pad ← parseNat pad; let pix ← bytesOfHex pix; let expect ← bytesOfHex expect
+    c06 depth w h ox oy pad pix enc expect
   | _ => none
 
 end Drx.Drv.Bitd
